@@ -142,7 +142,7 @@ impl Timer {
         ensures
             final(self).reg_token() matches Some(t) ==> t.tok() == old(token_factory).next(),
 //@ enditem
-//@ item src/sources/timer.rs / impl EventSource for Timer / fn unregister props=C05,C07
+//@ item src/sources/timer.rs / impl EventSource for Timer / fn unregister props=C05,C07,C01
 //@ enditem
 //@ close
 
